@@ -227,7 +227,9 @@ pub struct AckCase {
     /// 0: inbound QoS 1 -> PUBACK; 1: inbound QoS 2 -> PUBREC; 2: PUBREL unknown id -> PUBCOMP(0x92);
     /// 3: inbound QoS 2, PUBREC on an unlimited connection, then PUBREL on a resumed connection with `m`;
     /// 4: keep-alive PINGREQ; 5/6: inbound QoS 1/2 delivered on an unlimited connection, handle dropped before
-    /// the acknowledgement was written, resumed connection with `m`
+    /// the acknowledgement was written, resumed connection with `m`; 7: PUBREL replayed on a resumed connection;
+    /// 8: inbound QoS 2 acknowledged, its PUBREL consumed on the unlimited connection by a poll() that is dropped
+    /// when the PUBCOMP's write does not complete, resumed connection with `m`
     pub kind: u8,
 }
 
@@ -237,7 +239,7 @@ fn run_ack(c: &AckCase, m: Option<u32>) -> Option<(Vec<Res>, Vec<u8>, bool)> {
         spec.keepalive = 10;
     }
     let out = with_session(&spec, |bench, s| {
-        let first_m = if matches!(c.kind, 3 | 5 | 6 | 7) { None } else { m };
+        let first_m = if matches!(c.kind, 3 | 5 | 6 | 7 | 8) { None } else { m };
         let Conn::Ok(mut conn, mut id) = connect(bench, s, &connack(false, maxprop(first_m))) else { return None };
         let mut results: Vec<Res> = Vec::new();
         let poll = |conn: &mut minimq::Connection<'_, '_, crate::world::VirtualIo>, id: usize, results: &mut Vec<Res>| match bench.run(conn.poll(), id) {
@@ -250,7 +252,7 @@ fn run_ack(c: &AckCase, m: Option<u32>) -> Option<(Vec<Res>, Vec<u8>, bool)> {
         };
         match c.kind {
             0 | 5 => bench.push(id, &[0x32, 0x07, 0x00, 0x01, b'a', 0x00, 0x07, 0x00, 0x55]),
-            1 | 3 | 6 => bench.push(id, &[0x34, 0x07, 0x00, 0x01, b'a', 0x00, 0x07, 0x00, 0x55]),
+            1 | 3 | 6 | 8 => bench.push(id, &[0x34, 0x07, 0x00, 0x01, b'a', 0x00, 0x07, 0x00, 0x55]),
             2 => bench.push(id, &[0x62, 0x02, 0x00, 0x09]),
             7 => {
                 // outbound QoS 2 publish whose PUBREC is consumed here: PUBREL stays pending until PUBCOMP
@@ -270,9 +272,16 @@ fn run_ack(c: &AckCase, m: Option<u32>) -> Option<(Vec<Res>, Vec<u8>, bool)> {
                 break;
             }
         }
+        if c.kind == 8 {
+            // the PUBREC went out above; now the PUBREL arrives and the PUBCOMP it calls for is never written here
+            bench.push(id, &[0x62, 0x02, 0x00, 0x07]);
+            if bench.run_dropped_at_next_write(conn.poll()).is_some() {
+                panic!("machinery: the poll that owes a PUBCOMP finished without writing");
+            }
+        }
         let mut written = bench.written(id)[before..].to_vec();
         let mut alive = conn.is_connected();
-        if matches!(c.kind, 3 | 5 | 6 | 7) {
+        if matches!(c.kind, 3 | 5 | 6 | 7 | 8) {
             drop(conn);
             let Conn::Ok(mut conn2, id2) = connect(bench, s, &connack(true, maxprop(m))) else { return None };
             id = id2;
@@ -302,7 +311,7 @@ pub fn eval_ack(c: &AckCase) -> CaseOut {
     guarded("C14", || {
         let mut viol = Vec::new();
         let Some((r0, w0, a0)) = run_ack(c, None) else { panic!("machinery: twin setup failed") };
-        let name = ["PUBACK", "PUBREC", "PUBCOMP-not-found", "PUBCOMP-after-resume", "PINGREQ", "PUBACK-queued-before-reconnect", "PUBREC-queued-before-reconnect", "PUBREL-replayed-after-reconnect"][c.kind as usize];
+        let name = ["PUBACK", "PUBREC", "PUBCOMP-not-found", "PUBCOMP-after-resume", "PINGREQ", "PUBACK-queued-before-reconnect", "PUBREC-queued-before-reconnect", "PUBREL-replayed-after-reconnect", "PUBCOMP-queued-before-reconnect"][c.kind as usize];
         if !r0.is_empty() || !a0 || w0.is_empty() {
             panic!("machinery: unlimited twin of {} misbehaves: {:?} {:?} {}", name, r0, mr::hex(&w0), a0);
         }
@@ -588,7 +597,7 @@ pub fn run(tier: Tier, caps: &Caps) -> Vec<FamilyReport> {
     ));
     let mut ac = Vec::new();
     for m in 2..=8u32 {
-        for kind in 0..8u8 {
+        for kind in 0..9u8 {
             ac.push(AckCase { m, kind });
         }
     }
@@ -597,7 +606,7 @@ pub fn run(tier: Tier, caps: &Caps) -> Vec<FamilyReport> {
         "C14",
         ac.len() as u64,
         caps,
-        json!({"cases": ac.len(), "dimensions": "Maximum Packet Size 2..=8 x {PUBACK, PUBREC, PUBCOMP not-found, PUBCOMP after a resumed reconnect, PINGREQ, PUBACK / PUBREC queued on an unlimited connection and replayed on a resumed limited one, PUBREL replayed on a resumed limited one}"}),
+        json!({"cases": ac.len(), "dimensions": "Maximum Packet Size 2..=8 x {PUBACK, PUBREC, PUBCOMP not-found, PUBCOMP after a resumed reconnect, PINGREQ, PUBACK / PUBREC / PUBCOMP queued on an unlimited connection and replayed on a resumed limited one, PUBREL replayed on a resumed limited one}"}),
         &|i| eval_ack(&ac[i as usize]),
         &|i| serde_json::to_value(&ac[i as usize]).unwrap(),
     ));
